@@ -667,6 +667,57 @@ RULE = ("QFT: n=1..5 (6 thorough) operator obligations (both variants), n<=12 st
         "complex; binary_encoder hyperspherical (real/complex) and hopf (real)")
 
 
+# ------------------------------------------------------------------ entangling_layer / phase_encoder / random gaussian loader
+ARCHS = [("diagonal", "ADiagonal"), ("even_layer", "AEven"), ("odd_layer", "AOdd"), ("shifted", "AShifted"),
+         ("next_nearest", "ANextNearest"), ("pyramid", "APyramid"), ("v", "AV"), ("x", "AX")]
+
+
+def layers_structure(run, rng, nmax):
+    """entangling_layer: every architecture x n x closed_boundary x gate kind against Model.ent_pairs;
+    phase_encoder against Model.phase_gates; unary_encoder_random_gaussian against the tree pairs"""
+    from qibo.models.encodings import entangling_layer, phase_encoder, unary_encoder_random_gaussian
+    exprs, reals = [], []
+    for name, coq in ARCHS:
+        for n in range(2, nmax + 1):
+            if name == "x" and n % 2:
+                continue
+            for closed in (False, True):
+                gname = rng.choice(["CNOT", "CZ", "RBS", "RXX", "fSim", "SWAP"])
+                c = entangling_layer(n, name, gname, closed)
+                q = [[int(g.qubits[0]), int(g.qubits[1])] if gname != "CNOT" else [int(g.control_qubits[0]), int(g.target_qubits[0])]
+                     for g in c.queue]
+                okgate = all(type(g).__name__ == gname and all(float(p) == 0.0 for p in g.parameters) for g in c.queue)
+                reals.append((name, n, closed, gname, q, okgate))
+                exprs.append(f"ent_pairs {coq} {n} {'true' if closed else 'false'}")
+    vals = run.coq_eval("C20_layers.v", HEADER, exprs, timeout=600)
+    if vals is None:
+        run.find("coq:C20_layers", "generated file does not compile", {}, concrete=False)
+        return
+    for (name, n, closed, gname, q, okgate), v in zip(reals, vals):
+        m = tolist(parse_coq(v.replace("::", ",").replace("nil", "()"))) if "::" in v else tolist(parse_coq(v))
+        run.case(["entangling_layer", name, n, closed, gname])
+        if flatten_pairs(m) != q or not okgate:
+            run.find(f"corr:entangling_layer:{name}:{n}:{closed}", "entangling_layer gate list differs from the model ent_pairs",
+                     {"architecture": name, "n": n, "closed_boundary": closed, "gate": gname, "real": q}, concrete=False)
+        # direct check of the documented shape: two distinct qubits of the register per gate
+        if any(a == b or not (0 <= a < n and 0 <= b < n) for a, b in q):
+            run.find(f"entangling_layer:{name}:{n}:{closed}", "entangling_layer emits a gate outside the register / on equal qubits",
+                     {"architecture": name, "n": n, "closed_boundary": closed, "real": q})
+    # the random Gaussian loader has the structure of the tree unary encoder
+    for n in (2, 4, 8, 16):
+        c = unary_encoder_random_gaussian(n, seed=int(rng.randrange(1000)))
+        q = [[type(g).__name__] + [int(x) for x in g.qubits] for g in c.queue]
+        from qibo.models.encodings import _generate_rbs_pairs
+        _, rows = _generate_rbs_pairs(n, "tree")
+        run.case(["unary_random_gaussian", n])
+        if q != [["X", n - 1]] + [["RBS", int(a), int(b)] for row in rows for a, b in row]:
+            run.find(f"corr:unary_random_gaussian:{n}", "unary_encoder_random_gaussian is not X(n-1) + the tree RBS pairs", {"n": n}, concrete=False)
+
+
+def flatten_pairs(m):
+    return [[int(a), int(b)] for a, b in m]
+
+
 def cap_findings(run, per_class=3):
     orig, count = run.find, {}
 
@@ -711,11 +762,18 @@ def main(run):
         "unary_diagonal_ok_ring) and the BREADTH-FIRST tree gate list of _generate_rbs_pairs (unary_tree_bfs_ok_ring; recursive form "
         "unary_tree_ok_ring). NOT proved: that the acos/atan2 angle formulas of the real code satisfy the load equations (data-level tests "
         "incl. all 0/1 patterns of length 4 and 8)",
-        "hw_encoder_ok at ring level: PROVED for ALL n with the full control sets (optimize_controls=False, the variant used by "
-        "binary_encoder): hw_encoder_ok_full_controls -- along the Ehrlich walk from any consecutive-ones string the controlled RBS chain loads "
-        "the diagonal spread on the walk strings (= all weight-k strings, each once) and 0 elsewhere; with optimize_controls=True the "
-        "non-interference condition chain_ok is verified for 1 <= k < n <= 10 by vm_compute only (hw_encoder_ok_bounded). NOT proved: optimised "
-        "controls for n > 10, complex data (RZ layers), the lexicographic re-ordering of the data, binary_encoder amplitudes (data-level tests)",
+        "hw_encoder_ok at ring level is PROVED for ALL n and k with the control sets the code emits, both optimize_controls settings "
+        "(hw_encoder_ok, hw_emitted_chain_ok: Model.hw_gates = mirror + sort + optimisation mask satisfies chain_ok; the mask drops exactly the "
+        "controls on prefix positions where every loaded string carries a one -- prefix_block over the Ehrlich walk); array-coordinate variant "
+        "hw_encoder_ok_full_controls. NOT proved (data-level tests only): complex data (RZ layers, phase correction), the lexicographic "
+        "re-ordering of the data, that arctan2/norm angles satisfy the load equations",
+        "entangling_layer (8 architectures, closed boundary), phase_encoder: PROVED for all n at the structural level (entangling_layer_ok, "
+        "entangling_shifted_is_diagonal, entangling_layer_sizes, phase_encoder_ok) + exact structural correspondence; "
+        "binary_encoder: hopf rotations are fully controlled for all n (binary_hopf_rotations_fully_controlled); the hopf / hyperspherical gate "
+        "skeletons are tied by structural correspondence for n <= 5 (6 thorough) only, their amplitudes (and unary_encoder_random_gaussian's "
+        "sampled angles) are only tested / not covered",
+        "still bounded or per-run: ehrlich_enumerates_bounded (an independent vm_compute cross-check, n <= 10, superseded by ehrlich_enumerates); "
+        "QFT operator instances n <= 5/6 via TrigMat (cross-check of qft_ok on the traced real gates); gate matrices of H/CU1/SWAP via TrigMat for k <= 6",
     ]
     qft_structure(run, 12)
     qft_instances(run, 6 if thorough else 5)
@@ -727,6 +785,7 @@ def main(run):
     run.notes["ehrlich"] = ehrlich_corr(run, rng, 10 if thorough else 9)
     hw_structure(run, 7 if thorough else 6)
     run.notes["hw_data"] = hw_data(run, rng, 200 if thorough else 50)
+    layers_structure(run, rng, 12 if thorough else 9)
     binary_structure(run, 6 if thorough else 5)
     run.notes["binary_data"] = binary_data(run, rng, 200 if thorough else 60)
     hopf_zero_block(run)
